@@ -346,4 +346,170 @@ theorem sb_div_q_spec (n d : List Nat) (dinv : Nat) (hdn : 3 ≤ d.length) (hnn 
   rw [← hnsplit] at hval
   exact ⟨q, qh, e, hql, hq, hqh, hval⟩
 
+/-- mpn_sb_div_q for nn = dn: the divisor is cut to its top limb, every loop is skipped, and the test `n1 < dn` with the
+    "ignored tails" code decides qh (sb_div_q.c:60-68, 202, 258-280) -/
+theorem sb_div_q_spec0 (n d : List Nat) (dinv : Nat) (hdn : 3 ≤ d.length) (hnn : n.length = d.length)
+    (hnorm : B / 2 ≤ d.getD (d.length - 1) 0) (hn : Limbs n) (hd : Limbs d) :
+    ∃ qh, sb_div_q n d dinv = some ([], qh) ∧ qh ≤ 1 ∧ qh = val n / val d := by
+  have hB := B_pos
+  obtain ⟨m, hm⟩ : ∃ m, d.length = m + 1 := ⟨d.length - 1, by omega⟩
+  have hdv := val_take_top d m hm
+  have hnv := val_take_top n m (by omega)
+  have hdt := limb_getD hd m
+  have hnt := limb_getD hn m
+  have hdr := val_lt _ (Limbs_take hd m)
+  have hnr := val_lt _ (Limbs_take hn m)
+  rw [List.length_take, Nat.min_eq_left (by omega)] at hdr hnr
+  rw [hm, Nat.add_sub_cancel] at hnorm
+  have hnormB : B ≤ 2 * d.getD m 0 := norm_two _ hnorm
+  -- the model on these sizes
+  have ecore : sb_div_q n d dinv =
+      (let qh := if cmp [n.getD m 0] [d.getD m 0] ≥ 0 then 1 else 0
+       let hi' := if qh ≠ 0 then (sub_n [n.getD m 0] [d.getD m 0]).1 else [n.getD m 0]
+       let n1 := hi'.getD 0 0
+       if n1 < d.length then
+         (let sb := sub_n (n.take m) (d.take m)
+          let bor := if qh ≠ 0 then sb.2 else 0
+          if bor ≠ 0 ∧ n1 = 0 then some ([], (qh + B - bor) % B) else some ([], qh))
+       else some ([], qh)) := by
+    have e1 : d.drop m = [d.getD m 0] := by
+      have h := split_top1 (d.drop m) 0 (by rw [List.length_drop, hm]; omega)
+      rw [List.take_zero, List.nil_append, getD_drop, Nat.add_zero] at h
+      exact h
+    have e2 : n.drop m = [n.getD m 0] := by
+      have h := split_top1 (n.drop m) 0 (by rw [List.length_drop, hnn, hm]; omega)
+      rw [List.take_zero, List.nil_append, getD_drop, Nat.add_zero] at h
+      exact h
+    have e3 : n.take (m - 1) ++ [n.getD (m - 1) 0] = n.take m := by
+      have h := split_top1 (n.take m) (m - 1) (by rw [List.length_take, hnn, hm]; omega)
+      rw [List.take_take, Nat.min_eq_left (by omega)] at h
+      have e : (n.take m).getD (m - 1) 0 = n.getD (m - 1) 0 := by
+        rw [List.getD_eq_getElem?_getD, List.getD_eq_getElem?_getD, List.getElem?_take, if_pos (by omega)]
+      rw [e] at h
+      exact h.symm
+    unfold sb_div_q dqCore
+    simp only [hnn, hm, Nat.sub_self, Nat.zero_add, show 0 + 1 < m + 1 by omega, if_true,
+      show m + 1 - (0 + 1) = m by omega, e1, List.length_cons, List.length_nil, show 0 + 1 - 1 = 0 from rfl,
+      show m + 1 - 1 = m from rfl, e2, show (0 + 1 < 2) by omega, List.take_zero, dqLoopA, andFlag,
+      show 0 + 1 - 2 = 0 from rfl, show 1 - 1 = 0 from rfl, show 1 - 2 = 0 from rfl]
+    rw [dqFixup_eq]
+    simp only [List.length_cons, List.length_nil, show 0 + 1 - 2 = 0 from rfl, dqTri, hm,
+      show m + 1 - (0 + 1) = m by omega, show m + 1 - 2 = m - 1 by omega, show 0 + 1 < m + 1 by omega, if_true,
+      fixTails, ne_eq, not_true_eq_false, if_false, List.drop_zero, List.getD_cons_zero]
+    have e4 : (n.take (m - 1)).drop m = [] := by
+      apply List.drop_eq_nil_of_le; rw [List.length_take]; omega
+    have e5 : (n.take (m - 1)).take m = n.take (m - 1) := by
+      apply List.take_of_length_le; rw [List.length_take]; omega
+    rw [e4, e5, List.append_nil, e3]
+  rw [ecore]
+  simp only []
+  -- qh
+  have hc := cmp_ge_iff [n.getD m 0] [d.getD m 0] (by intro z hz; simp at hz; subst hz; exact hnt)
+    (by intro z hz; simp at hz; subst hz; exact hdt) rfl
+  simp only [val_cons, val_nil, Nat.mul_zero, Nat.add_zero] at hc
+  have hD0 : 0 < val d := by
+    rw [← hdv]
+    have : 0 < B ^ m * d.getD m 0 := Nat.mul_pos (by positivity) (by omega)
+    omega
+  by_cases hge : cmp [n.getD m 0] [d.getD m 0] ≥ 0
+  · rw [if_pos hge]
+    have hle := hc.mp hge
+    simp only [ne_eq, Nat.one_ne_zero, not_false_eq_true, if_true]
+    obtain ⟨sv, sc, sl, sn⟩ := subNC_val [n.getD m 0] [d.getD m 0] 0
+      (by intro z hz; simp at hz; subst hz; exact hnt) (by intro z hz; simp at hz; subst hz; exact hdt) rfl (by omega)
+    change val (sub_n _ _).1 + _ + 0 = _ + _ * (sub_n _ _).2 at sv
+    change (sub_n _ _).2 ≤ 1 at sc
+    change Limbs (sub_n _ _).1 at sl
+    change (sub_n _ _).1.length = _ at sn
+    generalize sub_n [n.getD m 0] [d.getD m 0] = st at *
+    obtain ⟨r, c⟩ := st
+    simp only at sv sc sl sn ⊢
+    obtain ⟨r0, rfl⟩ : ∃ r0, r = [r0] := by
+      match r, sn with
+      | [r0], _ => exact ⟨r0, rfl⟩
+    have hr0 : r0 < B := sl r0 (by simp)
+    simp only [val_cons, val_nil, Nat.mul_zero, Nat.add_zero, List.length_cons, List.length_nil, Nat.zero_add, pow_one,
+      List.getD_cons_zero] at sv ⊢
+    have hc0 : c = 0 := by
+      rcases Nat.eq_zero_or_pos c with h | h
+      · exact h
+      · exfalso; have : c = 1 := by omega
+        subst this; omega
+    subst hc0
+    have hr : r0 + d.getD m 0 = n.getD m 0 := by omega
+    obtain ⟨tv, tc, tl, tn⟩ := subNC_val (n.take m) (d.take m) 0 (Limbs_take hn _) (Limbs_take hd _)
+      (by rw [List.length_take, List.length_take, hnn]) (by omega)
+    change val (sub_n _ _).1 + _ + 0 = _ + _ * (sub_n _ _).2 at tv
+    change (sub_n _ _).2 ≤ 1 at tc
+    change Limbs (sub_n _ _).1 at tl
+    change (sub_n _ _).1.length = _ at tn
+    generalize sub_n (n.take m) (d.take m) = tt at *
+    obtain ⟨tr, bor⟩ := tt
+    simp only at tv tc tl tn ⊢
+    have htr := val_lt _ tl
+    rw [tn, List.length_take, Nat.min_eq_left (by omega)] at htr
+    rw [List.length_take, Nat.min_eq_left (by omega)] at tv
+    -- N < 2·D
+    have hN2 : val n < 2 * val d := by
+      rw [← hnv, ← hdv]
+      have : B ^ m * (n.getD m 0 + 1) ≤ B ^ m * (2 * d.getD m 0) := Nat.mul_le_mul_left _ (by omega)
+      nlinarith
+    have hq1 : val d ≤ val n → 1 = val n / val d := by
+      intro h
+      have h1 : val n / val d < 2 := (Nat.div_lt_iff_lt_mul hD0).mpr hN2
+      have h2 : 1 ≤ val n / val d := (Nat.le_div_iff_mul_le hD0).mpr (by omega)
+      omega
+    have hq0 : val n < val d → 0 = val n / val d := by
+      intro h; exact (Nat.div_eq_of_lt h).symm
+    have hNv : val n + B ^ m * d.getD m 0 + val (d.take m) = val d + val (n.take m) + B ^ m * n.getD m 0 := by
+      rw [← hnv, ← hdv]; ring
+    have hrr : B ^ m * r0 + B ^ m * d.getD m 0 = B ^ m * n.getD m 0 := by rw [← Nat.mul_add, hr]
+    rw [hm]
+    by_cases hfx : r0 < m + 1
+    · rw [if_pos hfx]
+      by_cases hex : ¬bor = 0 ∧ r0 = 0
+      · rw [if_pos hex]
+        obtain ⟨hb, hr00⟩ := hex
+        have hb1 : bor = 1 := by omega
+        subst hb1 hr00
+        have e : (1 + B - 1) % B = 0 := by rw [Nat.add_sub_cancel_left, Nat.mod_self]
+        refine ⟨_, rfl, ?_, ?_⟩
+        · rw [e]; omega
+        · rw [e]
+          apply hq0
+          rw [Nat.mul_one] at tv
+          rw [Nat.mul_zero, Nat.zero_add] at hrr
+          omega
+      · rw [if_neg hex]
+        refine ⟨1, rfl, le_refl _, hq1 ?_⟩
+        by_cases hb : bor = 0
+        · subst hb
+          rw [Nat.mul_zero, Nat.add_zero] at tv
+          have := Nat.zero_le (B ^ m * r0)
+          omega
+        · have hb1 : bor = 1 := by omega
+          have hr1 : 1 ≤ r0 := by
+            rcases Nat.eq_zero_or_pos r0 with h | h
+            · exact absurd ⟨hb, h⟩ hex
+            · exact h
+          subst hb1
+          rw [Nat.mul_one] at tv
+          have : B ^ m * 1 ≤ B ^ m * r0 := Nat.mul_le_mul_left _ hr1
+          omega
+    · rw [if_neg hfx]
+      refine ⟨1, rfl, le_refl _, hq1 ?_⟩
+      have : B ^ m * 1 ≤ B ^ m * r0 := Nat.mul_le_mul_left _ (by omega)
+      omega
+  · rw [if_neg hge]
+    have hlt : n.getD m 0 < d.getD m 0 := by
+      by_contra h
+      exact hge (hc.mpr (by omega))
+    simp only [ne_eq, not_true_eq_false, if_false, false_and, List.getD_cons_zero]
+    have hq0 : 0 = val n / val d := by
+      refine (Nat.div_eq_of_lt ?_).symm
+      rw [← hnv, ← hdv]
+      have : B ^ m * (n.getD m 0 + 1) ≤ B ^ m * d.getD m 0 := Nat.mul_le_mul_left _ hlt
+      nlinarith
+    split <;> exact ⟨0, rfl, by omega, hq0⟩
+
 end Mpir.SbDivQ
